@@ -50,8 +50,10 @@ def gen_case(seed, tier="quick"):
     rng = random.Random(seed)
     be = "sym" if rng.random() < 0.12 else "obj"
     dim = rng.choice((2, 3, 3, 4, 4))
-    fl = rng.random() < 0.5 and be == "obj"          # fault-injecting configuration
+    fl = rng.random() < 0.5                          # fault-injecting configuration
     fault_kinds = [s for s in ("lib", "flt") if rng.random() < 0.7] or ["lib"]
+    if be == "sym":
+        fault_kinds = ["lib"]                         # symbolic coordinates cannot be SimFloats
     kinds = ("float",)
     r = rng.random()
     if be == "obj":
